@@ -175,7 +175,14 @@ def _check(case):
     # (e) mole- vs mass-fraction input
     m1, m2 = mix.first_component.molecular_weight, mix.second_component.molecular_weight
     w = to_weight(x, m1, m2)
-    pw = call(get_partial_pressures, t, mix, build.composition(w, "weight"), mdl)
+    # the same Composition object is first used with another mixture (conversion results must not stick to the object)
+    cw = build.composition(w, "weight")
+    from pyvaporation import Mixtures as _M
+
+    other = _M.H2O_iPOH if mix is not _M.H2O_iPOH else _M.MeOH_Toluene
+    call(get_partial_pressures, t, other, cw, "NRTL")
+    call(cw.to_molar, other)
+    pw = call(get_partial_pressures, t, mix, cw, mdl)
     require(not is_raised(pw), "get_partial_pressures(mass fraction) raised %r", pw)
     tol = 1e-9 + 1e-13 / min(x, 1 - x)
     for i in (0, 1):
